@@ -2,7 +2,7 @@
    the functions of libmcount / utils/fstack.c it restates and for what is not modelled). *)
 From Coq Require Import NArith List Bool.
 Import ListNotations.
-Require Import UV.C11.Model UV.C11.StepBase UV.C11.Proofs UV.C11.ProofsDepth UV.C11.ProofsReplay.
+Require Import UV.C11.Model UV.C11.StepBase UV.C11.Proofs UV.C11.ProofsDepth UV.C11.ProofsReplay UV.C11.StreamMain.
 Local Open Scope N_scope.
 
 (* Every legal program - any mix, order and depth of traced / untraced / PLT calls, tail calls, setjmp,
@@ -39,40 +39,65 @@ Theorem C11_recorded_depth_is_height : forall ops s obs, lrun init ops = Some (s
 Proof. exact depth_is_height. Qed.
 Print Assumptions C11_recorded_depth_is_height.
 
-(* Replay: for every record stream in which each longjmp targets the jmp_buf of the most recent setjmp
-   record, the depth replay shows for every record is the true depth. *)
-Theorem C11_replay_depth_latest_setjmp : forall es l,
-  latest_only None es = true -> gt_run gt0 es = Some l -> rp_run rp0 es = l.
-Proof. exact replay_depth_latest. Qed.
-Print Assumptions C11_replay_depth_latest_setjmp.
+(* Replay (utils/fstack.c after fix a7444cc): for EVERY faithful record stream - any number of jmp_bufs,
+   longjmp to any live one, nested to any depth; faithful = the EXIT that follows a longjmp is the
+   matching setjmp's and EXIT records carry the true depth (C11_recorded_depth_is_height on the record
+   side) - the depth replay shows for every record is the true depth. *)
+Theorem C11_replay_depth_all_streams : forall es l, gt_run gt0 es = Some l -> rp_run rp0 es = l.
+Proof. exact replay_depth_all_streams. Qed.
+Print Assumptions C11_replay_depth_all_streams.
 
-(* ... and the guard is necessary: a longjmp to an older jmp_buf shows all later calls too deep
-   (utils/fstack.c keeps ONE setjmp_depth / setjmp_count for all jmp_bufs and all tasks). *)
-Theorem C11_replay_depth_older_jmpbuf_refuted :
+(* End to end on the model ("the trace closes the abandoned calls or marks the jump so that replay shows
+   all later calls at their true depth"): for every legal program the stream of records libmcount has
+   written - lazily flushed ENTRY records, EXIT records of the frames dropped by exception unwinding, the
+   longjmp ENTRY followed by the second EXIT of its setjmp - is accepted by the ground truth with the depth
+   field of every record as its true depth, and replay shows every record at exactly that depth.  (The
+   depth field is the height of the shadow-stack entry, C11_recorded_depth_is_height, which is the number
+   of live traced functions, C11_shadow_stack_is_live_hooked_frames.) *)
+Theorem C11_replay_shows_recorded_depths : forall ops, legal_prog ops = true ->
+  exists s obs, lrun init ops = Some (s, obs) /\
+    gt_run gt0 (stream_of (out s)) = Some (map r_depth (out s)) /\
+    rp_run rp0 (stream_of (out s)) = map r_depth (out s).
+Proof. exact replay_shows_recorded_depths. Qed.
+Print Assumptions C11_replay_shows_recorded_depths.
+
+Theorem C11_replay_shows_recorded_depths_sample :
+  match lrun init sample_prog with
+  | Some (s, _) => (map r_depth (out s), rp_run rp0 (stream_of (out s)))
+  | None => ([], [])
+  end = ([0; 1; 2; 3; 3; 3; 4; 4; 4; 3; 3; 4; 4; 4; 4; 3; 2; 1; 0],
+         [0; 1; 2; 3; 3; 3; 4; 4; 4; 3; 3; 4; 4; 4; 4; 3; 2; 1; 0]).
+Proof. exact replay_shows_recorded_depths_sample. Qed.
+Print Assumptions C11_replay_shows_recorded_depths_sample.
+
+(* non-vacuity + regression witness of the repaired defect (longjmp to an older jmp_buf) *)
+Theorem C11_replay_older_jmpbuf_now_right :
   gt_run gt0 witness_old_jmpbuf = Some [0; 1; 2; 2; 2; 3; 3; 3; 4; 2; 2; 2; 1; 0] /\
-  rp_run rp0 witness_old_jmpbuf = [0; 1; 2; 2; 2; 3; 3; 3; 4; 3; 3; 3; 2; 1] /\
-  ok_replay witness_old_jmpbuf (rp_run rp0 witness_old_jmpbuf) = false.
-Proof. exact replay_depth_refuted_witness. Qed.
-Print Assumptions C11_replay_depth_older_jmpbuf_refuted.
+  rp_run rp0 witness_old_jmpbuf = [0; 1; 2; 2; 2; 3; 3; 3; 4; 2; 2; 2; 1; 0] /\
+  ok_replay witness_old_jmpbuf (rp_run rp0 witness_old_jmpbuf) = true.
+Proof. exact replay_older_jmpbuf_now_right. Qed.
+Print Assumptions C11_replay_older_jmpbuf_now_right.
 
-(* Outside the guard of the first theorem, 1: _Unwind_Resume called from a cleanup pad at the slot of the
-   frame just unwound gets its own return address overwritten (13 instead of 14). *)
-Theorem C11_resume_alias_refuted :
-  legal_prog (firstn 5 witness_resume_alias) = true /\
-  legal_prog witness_resume_alias = false /\
+(* regression witness of the defect repaired by 0bd540c: _Unwind_Resume called from a cleanup pad at the
+   slot of the frame just unwound is now a legal move (covered by the first theorem); the dropped frame's
+   EXIT record is written and the resume address is intact. *)
+Theorem C11_resume_alias_now_in_step :
+  legal_prog witness_resume_alias = true /\
   exists s obs, lrun init witness_resume_alias = Some (s, obs) /\
-    map o_target obs = [0; 0; 0; 0; 0; 13] /\ ok_run witness_resume_alias obs = false.
-Proof. exact resume_alias_refuted. Qed.
-Print Assumptions C11_resume_alias_refuted.
+    map o_target obs = [0; 0; 0; 0; 0; 14; 0; 0; 11] /\ ok_run witness_resume_alias obs = true /\
+    map rec_code (out s) = [(0, 0, 0); (0, 1, 1); (0, 2, 2); (1, 2, 2); (1, 1, 1); (1, 0, 0)].
+Proof. exact resume_alias_now_in_step. Qed.
+Print Assumptions C11_resume_alias_now_in_step.
 
-(* 2: a tail-call chain mixing a PLT entry and an mcount entry is re-hooked with the wrong trampoline. *)
+(* Outside the guard of the first theorem, 1 - see known-findings.txt rehook-mixed-chain *)
+(* 1: a tail-call chain mixing a PLT entry and an mcount entry is re-hooked with the wrong trampoline. *)
 Theorem C11_rehook_mixed_chain_refuted :
   (exists s obs, lrun init (firstn 5 witness_mixed_chain) = Some (s, obs)) /\
   lrun init witness_mixed_chain = None.
 Proof. exact rehook_mixed_chain_refuted. Qed.
 Print Assumptions C11_rehook_mixed_chain_refuted.
 
-(* 3: with an -mfentry style frame address a destructor called from a cleanup pad is recorded as a child
+(* 2: with an -mfentry style frame address a destructor called from a cleanup pad is recorded as a child
    of the frame that was just unwound (two exit hooks, depth 3 instead of 2); control is unaffected. *)
 Theorem C11_fentry_cleanup_refuted :
   exists s obs, lrun init witness_fentry_cleanup = Some (s, obs) /\
